@@ -362,4 +362,4 @@ def body(case):
 
 
 def tests(tier):
-    return [TestSpec("doc-tree", gen_case, body, {"quick": 2500, "thorough": 200000}, tape=4096)]
+    return [TestSpec("doc-tree", gen_case, body, {"quick": 2500, "thorough": 200000}, tape=4096, fuzz={"thorough": 15000})]
